@@ -7,7 +7,7 @@ stats = {}
 for sid in sorted(os.listdir(os.path.join(V, "seeded"))):
     m = json.load(open(os.path.join(V, "seeded", sid, "meta.json")))
     esc = lambda s: s.replace("|", "\\|")
-    caught = ", ".join(sorted(set(c.split(":")[0] for c in m.get("caught_by", []) if c.endswith(":quick")))) or "—"
+    caught = ", ".join(sorted(set(c.split(":")[0] for c in m.get("caught_by", []) if c.endswith(":quick")))) or ", ".join(sorted(set(c.replace(":thorough", " (thorough)") for c in m.get("caught_by", []) if c.endswith(":thorough")))) or "—"
     rows.append("| %s%s | %s | %s | %s |" % (sid, " †" if m.get("missed_by_first_version_of_the_monitor") else "", esc(m.get("change", "?")), esc(m.get("needs_to_manifest", "?")), caught))
     w = m.get("wave", 0)
     st = stats.setdefault(w, [0, 0, 0])
